@@ -55,7 +55,7 @@ def _small_cond(draw, ctx, vars_):
 @st.composite
 def _case(draw, tier):
     cfg = _cfg()
-    position = draw(st.sampled_from(["condition", "condition", "operand", "argument", "selected"]))
+    position = draw(st.sampled_from(["condition", "condition", "operand", "operand_attr", "argument", "selected"]))
     recs = draw_dataset(draw, cfg)
     n = len(recs)
     nv = draw(st.sampled_from([1, 2])) if position == "condition" else 2
@@ -109,6 +109,20 @@ def _case(draw, tier):
         case["sub_side"] = draw(st.sampled_from(["right", "left"]))
         case["sel"] = [["var", 0]]
         case["desc"] = "entity"
+    elif position == "operand_attr":
+        # an attribute of a sub-query as the operand: pre(l, x) & (an(entity(x, c(l, x) | c(x))).attr <op> const | l.attr);
+        # x is restricted to the sub-query's solutions under the bindings of the enclosing query
+        case["pre"] = leaf(draw, ctx, draw(st.sampled_from([[0, 1], [0, 1], [0], [1]]))) if chance(draw, 3, 4) else None
+        case["sub_cond"] = leaf(draw, ctx, draw(st.sampled_from([[0, 1], [0, 1], [1]])))
+        case["sub_attr"] = draw(st.sampled_from(["a", "b"]))
+        case["op"] = draw(st.sampled_from(["==", "==", "!=", "<=", ">"]))
+        case["other"] = draw(st.sampled_from([["const", draw(st.sampled_from(ctx.P["ints"]))], ["const", draw(st.sampled_from(ctx.P["ints"]))],
+                                              ["attr", ["var", 0], draw(st.sampled_from(["a", "b"]))]]))
+        case["sub_side"] = draw(st.sampled_from(["left", "left", "right"]))
+        case["pre_first"] = chance(draw, 3, 4)
+        k = draw(st.sampled_from([1, 2, 2]))
+        case["sel"] = [["var", v] for v in list(draw(st.permutations([0, 1])))[:k]]
+        case["desc"] = "set_of"
     else:
         case["c0"] = _small_cond(draw, ctx, [0])
         case["c1"] = _small_cond(draw, ctx, [1] if chance(draw, 1, 2) else [0, 1])
@@ -208,6 +222,48 @@ def check(case) -> Outcome:
                         conds = [cmp_, build_cond(case["sub_cond"], [None, x])] + ([build_cond(extra, [l])] if extra is not None else [])
                         q = an(entity(l, *conds))
                 return [(r,) for r in q.evaluate()]
+        elif pos == "operand_attr":
+            sub_side_l = case["sub_side"] == "left"
+            cmp_ast = ["cmp", case["op"], ["attr", ["var", 1], case["sub_attr"]], case["other"]] if sub_side_l else \
+                ["cmp", case["op"], case["other"], ["attr", ["var", 1], case["sub_attr"]]]
+            sel = [t[1] for t in case["sel"]]
+            expected, seen, n_sub = [], set(), 0
+            for x0, x1 in itertools.product(doms[0], doms[1]):
+                env = {0: x0, 1: x1}
+                n_sub += bool(A.eval_cond(case["sub_cond"], env))
+                if (case["pre"] is None or A.eval_cond(case["pre"], env)) and A.eval_cond(case["sub_cond"], env) \
+                        and A.eval_cond(cmp_ast, env):
+                    row = tuple(env[v] for v in sel)
+                    if ident(row) not in seen:
+                        seen.add(ident(row))
+                        expected.append(row)
+            n_all = len(doms[0]) * len(doms[1])
+            nontrivial = 0 < n_sub < n_all and 0 < len(expected)
+            classes += ["sub_correlated" if 0 in A.cond_vars(case["sub_cond"]) else "sub_uncorrelated",
+                        "other_const" if case["other"][0] == "const" else "other_outer_attr", f"selected{len(sel)}"]
+
+            def run(which):
+                V, conts = declare_vars(case, objs)
+                with symbolic_mode():
+                    l, x = V
+                    pre = [build_cond(case["pre"], V)] if case["pre"] is not None else []
+                    if which == "composed":
+                        sub = an(entity(x, build_cond(case["sub_cond"], V)))
+                        st_ = getattr(sub, case["sub_attr"])
+                        ot = build_term(case["other"], V)
+                        import operator as _op
+                        f = {"==": _op.eq, "!=": _op.ne, "<=": _op.le, ">": _op.gt}[case["op"]]
+                        mine = [f(st_, ot) if sub_side_l else f(ot, st_)]
+                    else:
+                        mine = [build_cond(case["sub_cond"], V), build_cond(cmp_ast, V)]
+                    conds = pre + mine if case["pre_first"] else mine + pre
+                    q = an(set_of([V[v] for v in sel], *conds))
+                first = [tuple(r[V[v]] for v in sel) for r in q.evaluate()]
+                for n in (2, 3):
+                    again = [tuple(r[V[v]] for v in sel) for r in q.evaluate()]
+                    if {ident(r) for r in again} != {ident(r) for r in first}:
+                        raise _Reevaluation(f"evaluation {n} gave {show_rows(again)}, the first one {show_rows(first)}")
+                return first
         else:   # selected
             expected = []
             for x0, x1 in itertools.product(doms[0], doms[1]):
@@ -268,6 +324,13 @@ def render(case):
                       else f"an(entity(Ent(From(dom0), ref={sub})")
         r["extra"] = A.r_cond(case["extra"]) if case.get("extra") else None
         r["sub_side"] = case["sub_side"]
+    elif case["position"] == "operand_attr":
+        sub = f"an(entity(v1, {A.r_cond(case['sub_cond'])})).{case['sub_attr']}"
+        other = A.r_term(case["other"])
+        cmp_ = f"{sub} {case['op']} {other}" if case["sub_side"] == "left" else f"{other} {case['op']} {sub}"
+        pre = A.r_cond(case["pre"]) if case["pre"] is not None else None
+        r["query"] = f"an(set_of({[A.r_term(t) for t in case['sel']]}, " + ", ".join(
+            [x for x in ([pre, cmp_] if case["pre_first"] else [cmp_, pre]) if x]) + "))"
     else:
         r["query"] = f"an(set_of([a(v0, {A.r_cond(case['c0'])}), a(v1, {A.r_cond(case['c1'])})]))"
     return r
